@@ -7,7 +7,8 @@ EXPLANATION = ("C01: encoder and decoder are shown to agree on what is carried a
                "on every Ok path; (R3) the set of running variables reset per line is {generated column} on both sides; "
                "(R4) both sides use the v3 field order with deltas against the previously emitted value; (R5) sections and "
                "the Hermes payload are carried both ways; (R6) only exact duplicates are dropped by the encoder; (R7) the root-joined name cache stays coherent with root and raw names; (R8) the VLQ reader accepts the writer's whole range (no extra rejections)."
-               " (R10) writer and reader of the data URL use the same standard padded alphabet; (R11) SourceMap::new stores every argument whole.")
+               " (R10) writer and reader of the data URL use the same standard padded alphabet; (R11) SourceMap::new stores every argument whole."
+               " (R12) decode_regular fails only for the reviewed reasons (each error exit is a propagated callee error or one of the listed variants); (R13) embedded contents are held as views that show exactly the text they were built from; (RW) the wire structs RawSourceMap/RawSection carry derived serde impls only, so key names and optionality are exactly what the attributes say.")
 NOT_DECIDED = ("equality of the decoded values with the original, byte-for-byte idempotence and JSON string escaping (delegated to "
                "serde_json) are value-level statements.")
 
